@@ -11,7 +11,8 @@ from ..veq import veq, norm
 LEVEL = "exploration"
 RULE = ("combinator instances Peek/Pointer/Select/Optional/GreedyRange(discard on/off)/Union(parsefrom None|index|name|expr, named and unnamed members) "
         "over members drawn from fixed, variable-length, validating and nested constructs; inputs: canonical encodings, every truncation, a "
-        "violating byte planted at every position, random bytes; every start offset 0..5; parse and build; Pointer also with stream= naming a second stream standing elsewhere. non-trivial = case in which at least "
+        "violating byte planted at every position, random bytes; every start offset 0..5; parse and build; Pointer also with stream= naming a second stream standing elsewhere and inside Prefixed/FixedSized/nested "
+        "regions at non-zero offsets; Select alternatives giving up with non-ConstructError exceptions; compiled Unions; probes inside streamed bit regions. non-trivial = case in which at least "
         "one alternative/element failed after consuming >= 1 byte; distinct by (combinator instance, input)")
 ASSUMPTIONS = ["elements that can succeed without consuming input are not used as GreedyRange elements (termination is C06's subject)",
                "after Select fails as a whole the stream must stand where it started (no trace of a failed alternative); for the other combinators the position after a failure of the whole is not checked"]
